@@ -16,7 +16,7 @@ func init() {
 	register(&Rule{ID: "C07.ACCUM", Min: 4, Doc: "the column base of each placeholder equals the number of bytes sliced off before it", Run: runC07Accum})
 	register(&Rule{ID: "C07.QUOTE", Min: 3, Doc: "a column derived from a scalar's position is advanced by one iff the scalar is quoted, once", Run: runC07Quote})
 	register(&Rule{ID: "C07.FIELDS", Min: 12, Doc: "line, column and offset are copied field to field of the same meaning", Run: runC07Fields})
-	register(&Rule{ID: "C07.ARGS", Min: 15, Doc: "line and column arguments are passed in the order of the callee's parameters", Run: runC07Args})
+	register(&Rule{ID: "C07.ARGS", Min: 8, Doc: "line and column arguments are passed in the order of the callee's parameters", Run: runC07Args})
 	register(&Rule{ID: "C07.TOKEN", Min: 12, Doc: "a node is reported at its own token or at the token of its leftmost operand", Run: runC07Token})
 	register(&Rule{ID: "C07.ERRTOK", Min: 8, Doc: "a syntax error is positioned at the look-ahead token at which parsing stopped", Run: runC07ErrTok})
 	register(&Rule{ID: "C07.LEXPOS", Min: 4, Doc: "a token starts where the previous token or white space ended", Run: runC07LexPos})
@@ -146,6 +146,13 @@ func linOfChars(v ssa.Value, depth int, bases *[]ssa.Value) linForm {
 				*bases = append(*bases, sl.X)
 				return linOf(sl.High, depth+1)
 			}
+			// the part before the separator found by strings.Cut: s[:idx]
+			if ex, ok := x.Call.Args[0].(*ssa.Extract); ok && ex.Index == 0 {
+				if cut, ok := ex.Tuple.(*ssa.Call); ok && calleeFullName(&cut.Call) == "strings.Cut" {
+					*bases = append(*bases, cut.Call.Args[0])
+					return linForm{cutIndexSym(cut): 1}
+				}
+			}
 		}
 	}
 	return linOf(v, depth)
@@ -167,33 +174,78 @@ func linWithout(l linForm, keys ...string) linForm {
 
 func runC07Conv(c *Ctx) {
 	p := c.P
-	fn := p.Func("convertExprLineColToPos")
-	if fn == nil {
-		c.anchorMissing("convertExprLineColToPos")
-		return
-	}
-	want := map[string]linForm{
-		"Pos.Line": {"line": 1, "lineBase": 1, "1": -1},
-		"Pos.Col":  {"col": 1, "colBase": 1, "1": -1},
-	}
-	got := map[string]linForm{}
-	eachInstr(fn, func(_ *ssa.BasicBlock, _ int, in ssa.Instruction) {
-		if st, ok := in.(*ssa.Store); ok {
-			if fa, ok := st.Addr.(*ssa.FieldAddr); ok {
-				got[fieldAddrName(fa)] = linOf(st.Val, 0)
-			}
+	// wherever a position is computed from the 1-based line/column of an ExprError: Pos.Line = err.Line - 1 + base line,
+	// Pos.Col = err.Column - 1 + base column. The computation is found by what it reads (ExprError.Line / Column, directly or
+	// through a parameter every caller fills with it), not by the name of the function that holds it.
+	fedBy := func(fn *ssa.Function, sym string, field string) bool {
+		if strings.HasPrefix(sym, field+"(") {
+			return true
 		}
-	})
-	for f, w := range want {
-		construct := "convertExprLineColToPos|" + f
-		g, ok := got[f]
-		switch {
-		case !ok:
-			c.bad(construct, fn.Pos(), "field not set")
-		case g.equal(w):
-			c.ok(construct, fn.Pos(), f+" = "+g.String()+" (both 1-based)")
-		default:
-			c.bad(construct, fn.Pos(), f+" = "+g.String()+" instead of "+w.String()+": every expression diagnostic is shifted")
+		for i, q := range fn.Params {
+			if symName(q) != sym {
+				continue
+			}
+			callers := p.callersOf(fn)
+			if len(callers) == 0 {
+				return false
+			}
+			for _, e := range callers {
+				if e.Site == nil || e.Site.Common().IsInvoke() || i >= len(e.Site.Common().Args) {
+					return false
+				}
+				if f, _ := fieldLoad(e.Site.Common().Args[i]); f != field {
+					return false
+				}
+			}
+			return true
+		}
+		return false
+	}
+	found := map[string]bool{}
+	for _, fn := range p.Funcs {
+		eachInstr(fn, func(_ *ssa.BasicBlock, _ int, in ssa.Instruction) {
+			st, ok := in.(*ssa.Store)
+			if !ok {
+				return
+			}
+			fa, ok := st.Addr.(*ssa.FieldAddr)
+			if !ok {
+				return
+			}
+			f := fieldAddrName(fa)
+			src := map[string]string{"Pos.Line": "ExprError.Line", "Pos.Col": "ExprError.Column"}[f]
+			if src == "" {
+				return
+			}
+			lf := linOf(st.Val, 0)
+			errSym := ""
+			for k := range lf {
+				if k != "1" && fedBy(fn, k, src) {
+					errSym = k
+				}
+			}
+			if errSym == "" {
+				return
+			}
+			found[f] = true
+			construct := "position of an expression error|" + f
+			rest := linWithout(lf, errSym, "1")
+			okForm := lf[errSym] == 1 && lf["1"] == -1 && len(rest) == 1
+			for _, co := range rest {
+				if co != 1 {
+					okForm = false
+				}
+			}
+			if okForm {
+				c.ok(construct, st.Pos(), f+" = "+lf.String()+" (both 1-based)")
+			} else {
+				c.bad(construct, st.Pos(), f+" = "+lf.String()+" instead of "+src+" - 1 + base: every expression diagnostic is shifted")
+			}
+		})
+	}
+	for _, f := range []string{"Pos.Line", "Pos.Col"} {
+		if !found[f] {
+			c.anchorMissing("a computation of " + f + " from the line/column of an ExprError")
 		}
 	}
 }
@@ -217,17 +269,16 @@ func runC07Accum(c *Ctx) {
 	// the string passed: a chain of slicings of the parameter s; collect the lows sliced off along the loop
 	// loop-carried string phi
 	strArg := args[1]
-	sl, ok := strArg.(*ssa.Slice)
+	slX, cut1, ok := suffixView(strArg) // cut1: bytes cut before this placeholder's text
 	if !ok {
 		c.bad("(*RuleExpression).checkExprsIn|text handed to the parser", call.Pos(), "the placeholder text is not a suffix slice of the scalar")
 		return
 	}
-	sphi, ok := sl.X.(*ssa.Phi)
-	if !ok || sl.High != nil {
+	sphi, ok := slX.(*ssa.Phi)
+	if !ok {
 		c.bad("(*RuleExpression).checkExprsIn|text handed to the parser", call.Pos(), "the placeholder text is not s[k:] of the loop-carried remainder")
 		return
 	}
-	cut1 := linOf(sl.Low, 0) // bytes cut before this placeholder's text
 	// the column argument
 	var counted []ssa.Value
 	colForm := linOfChars(args[3], 0, &counted)
@@ -256,13 +307,22 @@ func runC07Accum(c *Ctx) {
 	}
 	_ = loopVariant
 	construct := "(*RuleExpression).checkExprsIn|column of the placeholder"
+	// what remains is the base: it may only consist of values fixed before the loop (the column of the scalar, the join of
+	// the quoted adjustment, constants) - whatever the variables are called
+	inLoop := naturalLoop(sphi.Block())
+	loopBlocks := map[string]bool{}
+	for b := range inLoop {
+		loopBlocks[fmt.Sprintf("@%d", b.Index)] = true
+	}
 	baseOK := true
 	for k, v := range rest {
-		if v == 0 {
+		if v == 0 || k == "1" || strings.HasPrefix(k, "Pos.Col(") {
 			continue
 		}
-		if k == "1" || strings.HasPrefix(k, "phi:col") || strings.HasPrefix(k, "Pos.Col(") {
-			continue
+		if strings.HasPrefix(k, "phi:") {
+			if i := strings.LastIndex(k, "@"); i >= 0 && !loopBlocks[k[i:]] {
+				continue // a join made before the loop
+			}
 		}
 		baseOK = false
 	}
@@ -289,24 +349,24 @@ func runC07Accum(c *Ctx) {
 		cur := e
 		okChain := true
 		for cur != ssa.Value(sphi) {
-			s2, ok := cur.(*ssa.Slice)
-			if !ok || s2.High != nil {
+			x2, low2, ok := suffixView(cur)
+			if !ok {
 				okChain = false
 				break
 			}
-			total = linAdd(total, linOf(s2.Low, 0), 1)
-			cur = s2.X
+			total = linAdd(total, low2, 1)
+			cur = x2
 		}
 		adv := linAdd(linOfChars(ophi.Edges[i], 0, &counted), linForm{symName(ophi): 1}, -1)
 		// prefixes whose characters were counted belong to the strings of the slicing chain
 		chain := map[ssa.Value]bool{sphi: true}
 		for cur := e; cur != ssa.Value(sphi); {
-			s2, ok := cur.(*ssa.Slice)
+			x2, _, ok := suffixView(cur)
 			if !ok {
 				break
 			}
-			chain[s2.X] = true
-			cur = s2.X
+			chain[x2] = true
+			cur = x2
 		}
 		for _, b := range counted {
 			if !chain[b] {
@@ -363,9 +423,39 @@ func runC07Accum(c *Ctx) {
 
 // ---- C07.QUOTE ----
 
+// isQuotedCond: the value is String.Quoted of a scalar, or a bool parameter that receives it from a caller (whatever the
+// parameter is called).
 func isQuotedCond(v ssa.Value) bool {
-	if p, ok := v.(*ssa.Parameter); ok && strings.EqualFold(p.Name(), "quoted") {
-		return true
+	return isQuotedCondDepth(v, 0)
+}
+
+func isQuotedCondDepth(v ssa.Value, depth int) bool {
+	if depth > 3 {
+		return false
+	}
+	if prm, ok := v.(*ssa.Parameter); ok {
+		if b, ok := prm.Type().Underlying().(*types.Basic); !ok || b.Kind() != types.Bool {
+			return false
+		}
+		fn := prm.Parent()
+		idx := -1
+		for i, q := range fn.Params {
+			if q == prm {
+				idx = i
+			}
+		}
+		if idxProg == nil || idx < 0 {
+			return strings.EqualFold(prm.Name(), "quoted")
+		}
+		for _, e := range idxProg.callersOf(fn) {
+			if e.Site == nil || e.Site.Common().IsInvoke() || idx >= len(e.Site.Common().Args) {
+				continue
+			}
+			if isQuotedCondDepth(e.Site.Common().Args[idx], depth+1) {
+				return true
+			}
+		}
+		return false
 	}
 	f, _ := fieldLoad(v)
 	return f == "String.Quoted"
@@ -383,6 +473,7 @@ func runC07Quote(c *Ctx) {
 		{"checkExprsIn", "(*RuleExpression).checkSemantics", 3},
 		{"checkIfCondition", "(*RuleExpression).exprError", 3},
 		{"checkIfCondition", "(*RuleExpression).checkSemanticsOfExprNode", 3},
+		{"checkIfCondition", "(*RuleExpression).checkSemantics", 3},
 	} {
 		fn := p.Method("RuleExpression", s.fn)
 		if fn == nil {
@@ -457,10 +548,45 @@ func runC07Quote(c *Ctx) {
 		}
 	}
 	// (b) memory form: globErrors adjusts a copy of the position
-	gfn := p.Method("RuleGlob", "globErrors")
+	// the function of rule_glob.go that adjusts the column of a position: globErrors itself, or a helper it calls
+	var gfn *ssa.Function
+	for _, f := range p.Funcs {
+		if !strings.HasSuffix(p.File(f.Pos()), "/rule_glob.go") {
+			continue
+		}
+		eachInstr(f, func(_ *ssa.BasicBlock, _ int, in ssa.Instruction) {
+			if st, ok := in.(*ssa.Store); ok {
+				if fa, ok := st.Addr.(*ssa.FieldAddr); ok && fieldAddrName(fa) == "Pos.Col" {
+					gfn = f
+				}
+			}
+		})
+	}
 	if gfn == nil {
-		c.anchorMissing("(*RuleGlob).globErrors")
+		c.anchorMissing("a function of rule_glob.go that adjusts Pos.Col")
 		return
+	}
+	// a parameter that receives InvalidGlobPattern.Column from every caller stands for it
+	columnParam := func(sym string) bool {
+		for i, q := range gfn.Params {
+			if symName(q) != sym {
+				continue
+			}
+			callers := p.callersOf(gfn)
+			if len(callers) == 0 {
+				return false
+			}
+			for _, e := range callers {
+				if e.Site == nil || e.Site.Common().IsInvoke() || i >= len(e.Site.Common().Args) {
+					return false
+				}
+				if f, _ := fieldLoad(e.Site.Common().Args[i]); f != "InvalidGlobPattern.Column" {
+					return false
+				}
+			}
+			return true
+		}
+		return false
 	}
 	quoteOK, colOK := false, false
 	why := "no adjustment for quoted scalars"
@@ -497,7 +623,7 @@ func runC07Quote(c *Ctx) {
 		// + err.Column - 1
 		if linConst(rest) == -1 && len(rest) == 2 {
 			for k := range rest {
-				if strings.HasPrefix(k, "InvalidGlobPattern.Column(") {
+				if strings.HasPrefix(k, "InvalidGlobPattern.Column(") || (k != "1" && columnParam(k)) {
 					colOK = true
 				}
 			}
@@ -518,8 +644,10 @@ func runC07Quote(c *Ctx) {
 	eachInstr(gfn, func(_ *ssa.BasicBlock, _ int, in ssa.Instruction) {
 		if st, ok := in.(*ssa.Store); ok {
 			if al, ok := st.Addr.(*ssa.Alloc); ok && typeStr(al.Type()) == "*Pos" {
-				if ld, ok := st.Val.(*ssa.UnOp); ok && ld.X == ssa.Value(gfn.Params[2]) {
-					copied = true
+				if ld, ok := st.Val.(*ssa.UnOp); ok {
+					if prm, isParam := ld.X.(*ssa.Parameter); isParam && typeStr(prm.Type()) == "*Pos" {
+						copied = true
+					}
 				}
 			}
 		}
@@ -1053,3 +1181,27 @@ func runC07Origin(c *Ctx) {
 		})
 	}
 }
+
+// suffixView: v is x[low:] - written as a slice expression, or as the part after the constant separator that strings.Cut
+// found in x (x[idx+len(sep):], with idx the position where Cut found it, the same position strings.Index reports).
+func suffixView(v ssa.Value) (x ssa.Value, low linForm, ok bool) {
+	switch y := v.(type) {
+	case *ssa.Slice:
+		if y.High != nil {
+			return nil, nil, false
+		}
+		if y.Low == nil {
+			return y.X, linForm{}, true
+		}
+		return y.X, linOf(y.Low, 0), true
+	case *ssa.Extract:
+		if cut, isCall := y.Tuple.(*ssa.Call); isCall && y.Index == 1 && calleeFullName(&cut.Call) == "strings.Cut" {
+			if sep, isConst := constString(cut.Call.Args[1]); isConst && sep != "" {
+				return cut.Call.Args[0], linForm{cutIndexSym(cut): 1, "1": len(sep)}, true
+			}
+		}
+	}
+	return nil, nil, false
+}
+
+func cutIndexSym(cut *ssa.Call) string { return "strings.Index()#" + cut.Name() }
